@@ -65,7 +65,13 @@ def make_sketch(cfg, shared_memory=False):
     if k == "log8":
         return CountMinLog8(cfg["width"], cfg["depth"], cfg.get("max_count", CEIL), cfg.get("num_reserved", 15), shared_memory=shared_memory)
     if k == "hh":
-        return HeavyHitters(cfg["width"], cfg["depth"], cfg["max_key_len"], cfg.get("phi"), shared_memory=shared_memory)
+        # the constructor documents (by its own whitelist) numpy integer types for width/depth/max_key_len
+        t = {None: int, "u8": np.uint8, "i8": np.int8, "u32": np.uint32, "i32": np.int32, "u64": np.uint64, "i64": np.int64}[cfg.get("argtype")]
+        if cfg.get("argtype") == "i8" and max(cfg["width"], cfg["depth"], cfg["max_key_len"]) > 127:
+            t = np.int64
+        if cfg.get("argtype") == "u8" and max(cfg["width"], cfg["depth"], cfg["max_key_len"]) > 255:
+            t = np.int64
+        return HeavyHitters(t(cfg["width"]), t(cfg["depth"]), t(cfg["max_key_len"]), cfg.get("phi"), shared_memory=shared_memory)
     if k == "hll":
         return HyperLogLog(cfg["p"], cfg["seed"], shared_memory=shared_memory)
     raise ValueError(k)
@@ -193,9 +199,21 @@ CELLMAP = CellMap()
 _INTERFERE_N = [0]
 
 
+def _rotate_threads(n):
+    """results must not depend on how many numba threads are enabled (numba.set_num_threads is ordinary API)"""
+    try:
+        import numba
+
+        mx = int(numba.config.NUMBA_NUM_THREADS)
+        numba.set_num_threads([mx, 1, max(1, mx // 2), max(1, mx - 1)][n % 4])
+    except Exception:
+        pass
+
+
 def interfere(cfg):
     """construct and use sketches of OTHER configurations of the same family (see World.interfere)"""
     _INTERFERE_N[0] += 1
+    _rotate_threads(_INTERFERE_N[0])
     try:
         cfgs = decoy_configs(cfg)
         c = cfgs[_INTERFERE_N[0] % len(cfgs)]
@@ -251,6 +269,7 @@ class World:
     # steps of the history (state that is wrongly shared per class / per module shows up this way)
     def interfere(self):
         self.nstep += 1
+        _rotate_threads(self.nstep)
         try:
             cfgs = decoy_configs(self.cfg)
             c = cfgs[self.nstep % len(cfgs)]
@@ -290,7 +309,10 @@ class World:
             self._model_add(i, step["k"], 1)
             return {i}
         if op == "update_list":
-            sut(sk.update, list(step["keys"]))
+            # any iterable is accepted (the loop is 'for key in keys'): list, tuple, or a one-shot iterator
+            how = step.get("as", "list")
+            arg = list(step["keys"]) if how == "list" else tuple(step["keys"]) if how == "tuple" else iter(list(step["keys"]))
+            sut(sk.update, arg)
             for k in step["keys"]:
                 self._model_add(i, k, 1)
             return {i}
@@ -298,6 +320,12 @@ class World:
             d = {}
             for k, v in step["items"]:
                 d[k] = as_type(v, step.get("vt"))  # later duplicates overwrite, exactly as the dict the user would pass
+            if step.get("as") == "counter":
+                from collections import Counter as _C
+
+                c_ = _C()
+                c_.update(d)
+                d = c_ if all(isinstance(v, int) and v > 0 for v in d.values()) else d
             sut(sk.update, d)
             for k, v in d.items():
                 self._model_add(i, k, int(v))
@@ -308,7 +336,7 @@ class World:
                 self._model_add(i, w, 1)
             return {i}
         if op == "update_ngram":
-            sut(sk.update_ngram, list(step["keys"]), step["n"])
+            sut(sk.update_ngram, iter(list(step["keys"])) if step.get("as") == "iter" else list(step["keys"]), step["n"])
             for k in step["keys"]:
                 for w in windows(k, step["n"]):
                     self._model_add(i, w, 1)
